@@ -21,6 +21,15 @@ def _const_tuple(e):
     return None
 
 
+def _const_leaves(v):
+    """string constants a default expression can evaluate to (`'a' if c else 'b'` -> both)"""
+    if isinstance(v, ast.Constant):
+        return [v.value]
+    if isinstance(v, ast.IfExp):
+        return _const_leaves(v.body) + _const_leaves(v.orelse)
+    return []
+
+
 def build(tier, repo):
     chk = Check(
         "C06", tier, repo,
@@ -98,12 +107,13 @@ def build(tier, repo):
         for s in fn.body:
             if isinstance(s, ast.If) and pf.norm_expr(s.test) == "(kktsolver is None)":
                 for a in ast.walk(s):
-                    if isinstance(a, ast.Assign) and isinstance(a.targets[0], ast.Name) and a.targets[0].id == "kktsolver" \
-                            and isinstance(a.value, ast.Constant):
-                        dfl.append(a.value.value)
+                    if isinstance(a, ast.Assign) and isinstance(a.targets[0], ast.Name) and a.targets[0].id == "kktsolver":
+                        dfl.extend(_const_leaves(a.value))
         bad = [d for d in dfl if d not in accepted]
-        if bad or not dfl:
-            r1.violation("%s:defaults accepted" % q, where_fn, "default kktsolver %s is not an accepted name" % (bad or "missing"), accepted, dfl)
+        if bad:
+            r1.violation("%s:defaults accepted" % q, where_fn, "default kktsolver %s is not an accepted name" % bad, accepted, dfl)
+        elif not dfl:
+            r1.undecided("%s:defaults accepted" % q, where_fn, "no constant default found under `if kktsolver is None`")
         else:
             r1.ok("%s:defaults accepted" % q, where_fn, dfl)
         # dispatch chain
